@@ -119,8 +119,8 @@ Proof.
 Qed.
 
 (** * [tier_inv] *)
-Definition tier_ok (t : list (list rec)) : Prop :=
-  Forall sorted t /\ (forall x, In x (concat t) -> 0 < r_ver x) /\ within_ok t.
+(** One tier satisfies the scan invariant of Spec/LsmSpec.v. *)
+Notation tier_ok := scan_inv (only parsing).
 
 Lemma tier_inv_nil : tier_inv [].
 Proof.
@@ -130,7 +130,7 @@ Qed.
 Lemma tier_inv_cons t R :
   tier_inv (t :: R) <-> tier_ok t /\ recs_geq (concat t) (all_recs R) /\ tier_inv R.
 Proof.
-  unfold tier_ok. split.
+  unfold scan_inv. split.
   - intros [Hs Hp Hw Hc]. apply cross_ok_cons in Hc as [Hc1 Hc2].
     inversion Hs; subst. inversion Hw; subst.
     split; [split; [assumption | split; [|assumption]]|].
@@ -161,10 +161,32 @@ Qed.
 Lemma tier_ok_app A B :
   tier_ok (A ++ B) <-> tier_ok A /\ tier_ok B /\ src_before (concat A) (concat B).
 Proof.
-  unfold tier_ok. rewrite Forall_app, within_ok_app, concat_app. split.
+  unfold scan_inv. rewrite Forall_app, within_ok_app, concat_app. split.
   - intros ((H1 & H2) & Hp & H3 & H4 & H5). repeat split; auto; intros x Hx; apply Hp, in_or_app; auto.
   - intros ((H1 & Hp1 & H3) & (H2 & Hp2 & H4) & H5). repeat split; auto.
     intros x Hx. apply in_app_or in Hx as [Hx|Hx]; auto.
+Qed.
+
+(** * [scan_inv] of a flat source list *)
+Lemma scan_inv_nil : scan_inv [].
+Proof. split; [constructor|]. split; [intros x [] | apply within_ok_nil]. Qed.
+
+Lemma scan_inv_cons a T :
+  scan_inv (a :: T) <->
+  (sorted a /\ (forall x, In x a -> 0 < r_ver x)) /\ src_before a (concat T) /\ scan_inv T.
+Proof.
+  change (a :: T) with ([a] ++ T). rewrite tier_ok_app. cbn [concat]. rewrite app_nil_r. split.
+  - intros ((Hs & Hp & _) & HT & Hb). split; [|tauto]. split; [now inversion Hs|].
+    intros x Hx. apply Hp. cbn. now rewrite app_nil_r.
+  - intros ((Hs & Hp) & Hb & HT). split; [now apply tier_ok_single | tauto].
+Qed.
+
+(** The tiered invariant of the old read path implies the scan invariant. *)
+Lemma tier_inv_scan_inv tiers : tier_inv tiers -> scan_inv (concat tiers).
+Proof.
+  induction tiers as [|t R IH]; intro H; [apply scan_inv_nil|].
+  apply tier_inv_cons in H as (Ht & Hg & HR). cbn [concat]. apply tier_ok_app.
+  split; [exact Ht|]. split; [now apply IH|]. now apply recs_geq_src_before.
 Qed.
 
 (** * Generic surgeries *)
